@@ -249,8 +249,10 @@ fn gate_matrix(gate: &mut Gate) -> Result<Matrix, GateError> {
         Lazy::new(|| array![[real!(1.0), real!(0.0)], [real!(0.0), real!(0.0)]]);
     static ONE: Lazy<Matrix> =
         Lazy::new(|| array![[real!(0.0), real!(0.0)], [real!(0.0), real!(1.0)]]);
-    if let Some(modifier) = gate.modifiers.pop() {
-        match modifier {
+    if !gate.modifiers.is_empty() {
+        // Modifiers apply from right to left, so the first one is the outermost. It is the one
+        // that owns the first qubit (and, for FORKED, that splits the parameters in half).
+        match gate.modifiers.remove(0) {
             GateModifier::Controlled => {
                 gate.qubits = gate.qubits[1..].to_vec();
                 let matrix = gate_matrix(gate)?;
